@@ -116,6 +116,11 @@ def make_cases(rng, n):
             dd = gen_data(rng, big=True)
             add('prefix-compact-size %s' % (hex_tok(dd) if dd else '0x'), 'prefix-compact-size', eq((codec.compact_size(len(dd)) + dd).hex()),
                 inline='prefix_compact_size(%s)' % (hex_tok(dd) if dd else '0x'), inline_want=codec.compact_size(len(dd)) + dd)
+            # the argument may be text (its bytes are the data) or an opcode name (the opcode byte)
+            s = rng.choice(['abc', 'hello', 'xy', 'q' * 300, 'Taproot'])
+            add('prefix-compact-size %s' % s, 'prefix-compact-size:string', eq((codec.compact_size(len(s)) + s.encode()).hex()), inline='prefix_compact_size(%s)' % s, inline_want=codec.compact_size(len(s)) + s.encode())
+            on = rng.choice(['OP_DUP', 'OP_CHECKSIG', 'OP_NOP'])
+            add('prefix-compact-size %s' % on, 'prefix-compact-size:opcode', eq('01%02x' % OP[on[3:]]), inline='prefix_compact_size(%s)' % on, inline_want=bytes([1, OP[on[3:]]]))
         elif which == 6:
             p = rb(rng, rng.choice([1, 20, 21, 25, 33, 34, 64, 100, 150, 195, 196, 197, 198, 199, 200, 201, 202, 256, 300, 520] * 3 + [9995, 9996, 9997, 9998, 9999, 10000]))
             enc = codec.b58check_encode(p)
@@ -128,7 +133,8 @@ def make_cases(rng, n):
             if codec.b58check_decode(bad) is None:
                 add('base58chk-decode %s' % bad, 'base58chk-decode:corrupt', lambda so, se, p=p: None if se.strip() and p.hex() not in so else 'corrupted string not rejected: %s | %s' % (so[:60], se[:60]))
         elif which == 7:
-            p = rb(rng, rng.choice([20, 32, 32, 2, 40]))
+            # (payloads of 49 bytes and more give strings of more than 90 characters: whatever the encoders produce, the decoder inverts)
+            p = rb(rng, rng.choice([20, 32, 32, 2, 40, 47, 48, 49, 50, 64, 100, 520, 4000]))
             for nm, const, inl in (('bech32-encode', codec.BECH32_CONST, 'bech32enc'), ('bech32m-encode', codec.BECH32M_CONST, None)):
                 # the command encodes <witness version 1><program> with hrp 'bcrt' (help: "encode [pubkey]"): only internal consistency
                 # and the documented structure are demanded
